@@ -55,6 +55,17 @@ KINDS = [
     ('props.C03', 'wiring_harness', {'builder': 'group_by'}, None),
     ('props.C03', 'wiring_harness', {'builder': 'broadcast'}, None),
     ('props.C20', 'dead_channel_harness', {'adaptive': True}, None),
+    ('props.C20', 'crash_harness', {'nsenders': 2, 'adaptive': True, 'max_len': 1}, None),
+    ('props.C20', 'join_harness', {'n': 3}, None),
+    ('props.C15', 'csv_source_harness', {'size': 6, 'replicas': 3, 'has_headers': True, 'crlf': True}, None),
+    ('props.C15', 'csv_source_harness', {'size': 5, 'replicas': 4, 'has_headers': False}, None),
+    ('props.C02', 'demux_harness', {'n_endpoints': 2, 'nmsgs': 3}, None),
+    ('props.C02', 'mux_harness', {'n_endpoints': 2, 'nmsgs': 3}, None),
+    ('props.C02', 'select_harness', {'na': 2, 'nb': 2, 'timed': True}, None),
+    ('props.C18', 'binstart_flush_harness', {'nl': 1, 'nr': 1, 'iters': 1, 'max_len': [2], 'timeouts': 1}, None),
+    ('props.C07', 'rich_map_harness', {'iters': 2, 'max_len': [3, 2]}, True),
+    ('props.C03', 'wiring_harness', {'builder': 'group_by_fold'}, None),
+    ('props.C14', 'time_window_harness', {'kind': 'processing', 'size': 3, 'slide': 3, 'max_len': [2, 2], 'iters': 2}, None),
 ]
 
 
